@@ -154,11 +154,13 @@ CHECKS = {
                  'object as the library\'s call sites do and through the public manager API), 1-3 of them concurrent with offsets of '
                  '0-6 loop iterations. Two axes are enumerated completely per batch (start state x operation x way of issuing; '
                  'start state x leader x follower behind the lock). Oracle: notified edges are a chained path in the hand-transcribed '
-                 'graph (models/transfer_graph.py), result/notification agreement, no side effect of refused operations.'),
-        'design_ref': 'DESIGN.md section 3 (C03), appendix B.1',
-        'note': ('the graph is data in /verif, transcribed from the state classes and USAGE.rst (no disagreement found); the '
-                 'integrated variant (real negotiation against scripted peers) is exercised by C06/C04 runs, whose listeners are not '
-                 'judged against the graph here'),
+                 'graph (models/transfer_graph.py), result/notification agreement, no side effect of refused operations. '
+                 'Live shape (checks/c03_live.py): a real download / upload against a scripted peer; the library\'s own negotiation '
+                 'and transfer tasks ask for the state changes while the peer injects messages about the file around a slow file '
+                 'connection and the user stops / re-queues; same graph oracle plus: reasons and timestamps of a transfer that rests '
+                 'in FAILED / ABORTED / PAUSED / COMPLETE do not change.'),
+        'design_ref': 'DESIGN.md section 3 (C03), appendix B.1, section 8.6 (round 5)',
+        'note': ('the graph is data in /verif, transcribed from the state classes and USAGE.rst (no disagreement found)'),
         'technique': 'deterministic simulation (virtual clock, slow cancellation and slow executor jobs, iteration-offset concurrent callers) + graph-path oracle',
     },
     'C17': {
